@@ -510,6 +510,24 @@ func (r *Rng) c10WebRequest(types []string) string {
 	return sb.String()
 }
 
+// c10WebFlags: options the web UI cannot change per request (no URL parameter), set for the whole case.
+func (r *Rng) c10WebFlags() map[string]string {
+	f := map[string]string{}
+	if r.Chance(70) {
+		f["source_path"] = r.Pick([]string{"@TREES@/trees/a/src", "@TREES@/trees/b/app", "@TREES@/srcroot", "@TREES@/trees/b/app:@TREES@/trees/c/lib"})
+	}
+	if r.Chance(25) {
+		f["trim_path"] = r.Pick([]string{"/src", "/src/app"})
+	}
+	if r.Chance(25) {
+		f[r.Pick([]string{"tagroot", "tagleaf"})] = r.Pick([]string{"req", "tenant", "req,tenant"})
+	}
+	if r.Chance(20) {
+		f["divide_by"] = r.Pick([]string{"2", "0.5", "10"})
+	}
+	return f
+}
+
 func c10QueryEscape(s string) string {
 	var sb strings.Builder
 	for i := 0; i < len(s); i++ {
